@@ -119,11 +119,81 @@ Verdict textHistoryProp(Ctx& c) {
   return pbt::pass();
 }
 
+// ---- definition histories: a chain of verified terms, then formal-definition edits that may mention ANY member ------
+// The general generator draws definitions from a fixed pool and closes a dependency cycle of length >= 2 over verified
+// constituents only by accident; here every edit picks its mentions among the live members (lower, own, higher), so
+// closing, re-opening and renaming inside cycles is the common case.
+Verdict definitionHistoryProp(Ctx& c) {
+  const uint64_t idSeed = static_cast<uint64_t>(c.pick(1, 1000000));
+  const int n = c.ipick(2, 6);
+  auto member = [&](int lo, int hi) { return "D" + std::to_string(c.ipick(lo, hi)); };
+  auto expr = [&](int lo, int hi) -> std::string {  // over D<lo>..D<hi>; hi < lo: no member available
+    if (hi < lo) return c.coin() ? "X1" : "X1\\X1";
+    switch (c.ipick(0, 8)) {
+      case 0: return member(lo, hi);
+      case 1: return member(lo, hi) + U8_UNION + member(lo, hi);
+      case 2: return member(lo, hi) + "\\X1";
+      case 3: return "X1" U8_UNION + member(lo, hi);
+      case 4: return "D{a" U8_IN "X1|a" U8_IN + member(lo, hi) + "}";
+      case 5: return U8_BOOL "(" + member(lo, hi) + ")";   // raises the type: dependants may become ill-typed
+      case 6: return "red(" + member(lo, hi) + ")";         // lowers it
+      case 7: return "X1";
+      default: return member(lo, hi) + U8_UNION;            // syntax error
+    }
+  };
+  std::vector<std::string> defs;
+  for (int i = 1; i <= n; ++i) defs.push_back(expr(1, i - 1));
+  struct DOp { int kind, target; std::string text; bool flag; };
+  std::vector<DOp> ops;
+  const int nOps = c.ipick(1, 8);
+  for (int i = 0; i < nOps; ++i) {
+    DOp op; op.kind = c.ipick(0, 9); op.target = c.ipick(1, n); op.flag = c.coin();
+    if (op.kind <= 5) op.text = c.chance(2, 3) ? expr(op.target + (op.target < n ? 1 : 0), n) : expr(1, n);  // mostly a HIGHER member: closes a cycle
+    else if (op.kind == 6) op.text = "D" + std::to_string(c.ipick(1, n + 2));                               // rename (possibly onto a live alias: refused)
+    else if (op.kind == 7) op.text = expr(1, n);                                                            // Emplace of a new term
+    ops.push_back(op);
+  }
+  c.show << "defs:"; for (int i = 0; i < n; ++i) c.show << " D" << i + 1 << ":=" << defs[static_cast<size_t>(i)];
+  c.show << " ops:";
+  static const char* names[] = {"SetExpression", "SetExpression", "SetExpression", "SetExpression", "SetExpression", "SetExpression", "Rename", "Emplace", "Erase", "ResetAliases"};
+  for (auto& op : ops) c.show << " " << names[op.kind] << "(D" << op.target << ",'" << op.text << "'" << (op.flag ? ",subst" : "") << ")";
+  c.exec();
+  Executor ex(idSeed);
+  ex.form.Emplace(CstType::base);
+  std::vector<EntityUID> uids;
+  for (int i = 0; i < n; ++i) uids.push_back(ex.form.Emplace(CstType::term, defs[static_cast<size_t>(i)]));
+  bool closedCycle = false;
+  for (const auto& op : ops) {
+    const auto uid = uids[static_cast<size_t>(op.target - 1)];
+    if (!ex.form.Contains(uid) && op.kind != 7 && op.kind != 9) continue;
+    const bool loopBefore = ex.form.RSLang().Graph().HasLoop();
+    int verifiedBefore = 0; for (auto u : ex.form.List()) if (ex.form.GetParse(u).status == ccl::semantic::ParsingStatus::VERIFIED) ++verifiedBefore;
+    if (op.kind <= 5) ex.form.SetExpressionFor(uid, op.text);
+    else if (op.kind == 6) ex.form.SetAliasFor(uid, op.text, op.flag);
+    else if (op.kind == 7) ex.form.Emplace(CstType::term, op.text);
+    else if (op.kind == 8) ex.form.Erase(uid);
+    else ex.form.ResetAliases();
+    const RSForm& inc = ex.form;
+    if (op.kind <= 5 && !loopBefore && inc.RSLang().Graph().HasLoop() && verifiedBefore >= 3) closedCycle = true;
+    RSForm fresh;
+    for (auto u : inc.List()) fresh.Load(inc.Core().AsRecord(u));
+    fresh.UpdateState();
+    const Verdict v = compareWith(inc, fresh, "Load+UpdateState", std::string(names[op.kind]) + "(D" + std::to_string(op.target) + ")", !inc.Texts().TermGraph().HasLoop());
+    if (v.kind != Verdict::PASS) return v;
+    c.label(std::string("def-op:") + names[op.kind]);
+    if (inc.RSLang().Graph().HasLoop()) c.label("def-state:cyclic");
+  }
+  c.nontrivial = closedCycle;
+  if (closedCycle) c.label("definition-edit-closes-cycle-over-verified-members");
+  return pbt::pass();
+}
+
 }  // namespace
 
 int main(int argc, char** argv) {
   std::vector<pbt::Prop> props;
   props.push_back({"text_history", textHistoryProp, 1500, 25000, false, false, "acyclic term-reference chains, incremental text edits vs from-scratch resolution"});
+  props.push_back({"definition_history", definitionHistoryProp, 1500, 20000, false, false, "chains of verified terms; definition edits mentioning any member (closing / re-opening cycles), renames, erasures vs from-scratch analysis"});
   props.push_back({"history", historyProp, 1000, 20000, false, false, "random editing histories; incremental state vs two from-scratch rebuilds after every operation"});
   return pbt::main(argc, argv, "C07", props);
 }
